@@ -48,15 +48,16 @@ Proof.
   vm_compute in E. inversion E; subst. eexists _, _. split; [exact Hr|]. repeat split; reflexivity.
 Qed.
 
-(* A pending Go library loop: gofuel > 0 and a Go frame that gets control back. *)
+(* A Go library frame that is running when the context is cancelled from outside (gofuel > 0): it may
+   still call, but what it calls polls (Lua) or is entered through TEntry. *)
 Example ex_go_loop :
-  let s := [TLua true; TGoPcall; TGoPlain; TLua true] in
+  let s := [TGoPlain; TLua true] in
   cstate (fired s 6) /\ armed_run s = false /\
-  exists tr σ', run (fired s 6) tr σ' /\ final σ' /\ attempts tr = 5 /\
+  exists tr σ', run (fired s 6) tr σ' /\ final σ' /\ attempts tr = 2 /\
                 attempts tr <= weight s + 1 + 2 * 6.
 Proof.
   intros s. split; [apply cstate_fired; reflexivity|]. split; [reflexivity|].
-  destruct (run_of_exec s 6 (repeat (GCall [TLua true; TGoPcall]) 3)) as [[tr σ'] e] eqn:E.
+  destruct (run_of_exec s 6 [GCall [TLua true; TGoPcall; TEntry true]]) as [[tr σ'] e] eqn:E.
   destruct (exec_sound _ _ _ _ _ _ _ E) as (t & Ht & Hr). simpl in Ht. subst t.
   vm_compute in E. inversion E; subst. eexists _, _. split; [exact Hr|].
   split; [reflexivity|]. split; [reflexivity|]. vm_compute. lia.
